@@ -1173,7 +1173,8 @@ func compileNumberForStmt(context *funcContext, stmt *ast.NumberForStmt) { // {{
 	code.AddASbx(OP_FORLOOP, rindex, bodypc-(flpc+1), sline(stmt))
 
 	context.SetLabelPc(endlabel, code.LastPC())
-	if flpc-bodypc > opMaxArgSbx {
+	// FORLOOP jumps back over the body and itself: one more than FORPREP's distance
+	if flpc+1-bodypc > opMaxArgSbx {
 		raiseCompileError(context, sline(stmt), "too long to jump.")
 	}
 	code.SetSbx(bodypc, flpc-bodypc)
